@@ -26,6 +26,7 @@ def handle : Handler := fun op j =>
       (x.1, acc.2.push (Json.mkObj [("ret", match x.2 with | some n => Json.num n | none => Json.null),
                                     ("files", listing)]))) (s0, #[])
     some (Json.arr r.2)
+  | "cache.filename" => some (Json.str (entryFile (jstr j "prefix") (jstr j "id") (jstr j "suffix")))
   | _ => none
 
 end Suds.Driver.C11
